@@ -1416,6 +1416,10 @@ class Folder:
 
     def c_np_prod(self, a, kw):
         seq = a[0].flat() if isinstance(a[0], Arr) else a[0]
+        if self.symbolic and not (isinstance(seq, (list, tuple)) and all(is_num(x) or isinstance(x, float) for x in seq)):
+            sy = Sym("np.prod", a, kw)   # symbolic operands: the product stays a term, as for every other numpy routine
+            self.trace.append(sy)
+            return sy
         if not isinstance(seq, (list, tuple)) or kw.get("axis") is not None or len(a) > 1:
             raise Refuse("np.prod form")
         t = kw.get("start", 1)
